@@ -29,7 +29,7 @@ RULE = ("random cases: x class x y class x fixed-point layout (gaps>=2) x mode {
         " Round-5 classes: names handed over as equal strings that are other objects / numpy.str_ / str subclasses, both fixed-point parameters with different content (indices win), int32 columns (epoch seconds x counters ~1e6), a 'threads' kind (concurrent matching requests vs their sequential answers)."
         " Round-6 classes: fixed-point indices as compact integer arrays (uint8 .. uint64) on series longer than the type's range, the exponent as numpy.float32 / float16 scalar."
         " Round-7 classes: the last fixed index exactly at a narrow index type's maximum (int8 127 / uint8 255); pure functions asked twice with the first answer edited in place (callform.TWICE_OK).")
-REQUIRED_MONITORS = ["threads:match", "c01:post"]
+REQUIRED_MONITORS = ["threads:match", "threads:first_use:match", "threads:first_use_yields_injected", "c01:post"]
 ASSUMPTIONS = ["admissible inputs only: strictly increasing x, distinct fixed points one per matched reference point, "
                ">= 1 interior sample per interval (re-checked by the oracle; others are discarded and counted)"]
 NSHARDS = 16
@@ -138,7 +138,7 @@ def run_lattice(ctx, spec):
 
 
 def run(ctx, spec):
-    if spec["kind"] == "threads":      # concurrent independent requests vs their sequential answers
+    if spec["kind"] in ("threads", "threads_cold"):      # concurrent independent requests vs their sequential answers
         return _jobs.run(ctx, spec, ["match"])
     if spec["kind"] == "lattice":
         run_lattice(ctx, spec)
@@ -148,8 +148,8 @@ def run(ctx, spec):
 
 
 def replay(ctx, case):
-    if case["kind"] == "threads":
-        return _jobs.run_case(ctx, ["match"], case["idx"])
+    if case["kind"] in ("threads", "threads_cold"):
+        return _jobs.run_case(ctx, ["match"], case["idx"], cold=case["kind"] == "threads_cold")
     if case["kind"] == "lattice":
         from traffic_weaver.match import integral_matching_reference_stretch
         m, idx = case["layout"]
